@@ -109,7 +109,9 @@ def main():
         },
         "engines": [
             {"name": "bv", "path": "bv/", "serves_properties": sorted(CHECKS),
-             "kind_free_text": "property-based testing harness: Hypothesis strategies / bounded exhaustive enumeration against reference models, 16-process runner, replay files, evidence writer"},
+             "kind_free_text": "property-based testing harness: Hypothesis strategies / bounded exhaustive enumeration against reference models (bv/ir.py), forked lock-step definers with crash/tear injection (bv/procs.py), deterministic thread scheduler (bv/props/c13.py), 16-process runner with parent watchdog, replay files, evidence writer"},
+            {"name": "fuzz_unpack", "path": "bv/fuzz_unpack.py", "serves_properties": ["C04"],
+             "kind_free_text": "atheris/libFuzzer coverage-guided byte fuzzing of Packet.unpack over a fixed catalogue of declarations with the reference-parser differential inside the target (run by the C04 check)"},
         ],
         "checks": checks,
         "not_applicable": na,
